@@ -32,6 +32,8 @@ SCENARIOS = [
     dict(name='same-start', obs=[('a', 1, 3, 10, 2, 1), ('b', 1, 2, 10, 1, 1)], max_ingest=2),
     dict(name='back-to-back', obs=[('a', 0, 2, 36, 3, 2), ('b', 2, 3, 36, 2, 1), ('c', 5, 2, 18, 4, 1)]),
     dict(name='late', obs=[('a', 4, 2, 20, 5, 1), ('b', 9, 3, 20, 1, 2)]),
+    dict(name='same-start-3', obs=[('a', 1, 3, 10, 2, 1), ('b', 1, 2, 10, 1, 1), ('c', 1, 2, 10, 1, 1)], max_ingest=2),
+    dict(name='arrays-contended', obs=[('a', 0, 4, 36, 2, 1), ('b', 2, 3, 36, 1, 1)]),
 ]
 
 
